@@ -180,20 +180,11 @@ impl CompoundSelector {
         }
         if let Some(id) = &self.id {
             buf.add_char('#');
-            buf.add_str(id);
+            write_name(buf, id);
         }
         for c in &self.classes {
             buf.add_char('.');
-            if let Some((c, rest)) = c.as_bytes().split_first()
-                && c.is_ascii_digit()
-                && let Ok(rest) = str::from_utf8(rest)
-            {
-                use std::io::Write;
-                let _ = write!(buf, "\\{c:x} ");
-                buf.add_str(rest);
-            } else {
-                buf.add_str(c);
-            }
+            write_name(buf, c);
         }
         for attr in &self.attr {
             attr.write_to(buf);
@@ -379,5 +370,19 @@ pub(crate) mod parser {
         }
         verify(tag(""), |_| !result.is_empty()).parse(rest)?;
         Ok((rest, result))
+    }
+}
+
+/// Write a class or id name, escaping a leading digit.
+fn write_name(buf: &mut CssBuf, name: &str) {
+    if let Some((c, rest)) = name.as_bytes().split_first()
+        && c.is_ascii_digit()
+        && let Ok(rest) = str::from_utf8(rest)
+    {
+        use std::io::Write;
+        let _ = write!(buf, "\\{c:x} ");
+        buf.add_str(rest);
+    } else {
+        buf.add_str(name);
     }
 }
